@@ -17,13 +17,16 @@ EXTENDS Naturals, Sequences, FiniteSets, TLC
 IsHeading(k) == k \in {"h1", "h2", "h3"}
 Level(k) == CASE k = "h1" -> 1 [] k = "h2" -> 2 [] OTHER -> 3
 Letter(k) == CASE IsHeading(k) -> "H" [] k = "p" -> "P" [] k = "li" -> "L" [] OTHER -> "T"
-MarkersOf(b) == IF b.kind = "tb" THEN {"T" \o ToString(b.id) \o s : s \in {"A", "B", "C", "D"}} ELSE {Letter(b.kind) \o ToString(b.id) \o "X"}
+\* a paragraph of several lines carries one marker per line (X, then B, C): a small budget may split it between chunks
+MarkersOf(b) == IF b.kind = "tb" THEN {"T" \o ToString(b.id) \o s : s \in {"A", "B", "C", "D"}}
+                ELSE IF b.kind = "p" THEN {"P" \o ToString(b.id) \o s : s \in (IF b.lines >= 3 THEN {"X", "B", "C"} ELSE IF b.lines = 2 THEN {"X", "B"} ELSE {"X"})}
+                ELSE {Letter(b.kind) \o ToString(b.id) \o "X"}
 HeadMarker(b) == "H" \o ToString(b.id) \o "X"
 
 \* the blocks of a document in reading order, with their 0-based page
 RECURSIVE FlatPages(_, _)
 FlatPages(pages, p) == IF p > Len(pages) THEN <<>>
-                       ELSE [j \in 1..Len(pages[p]) |-> [kind |-> pages[p][j].kind, id |-> pages[p][j].id, page |-> p - 1]] \o FlatPages(pages, p + 1)
+                       ELSE [j \in 1..Len(pages[p]) |-> [kind |-> pages[p][j].kind, id |-> pages[p][j].id, lines |-> pages[p][j].lines, page |-> p - 1]] \o FlatPages(pages, p + 1)
 Blocks(doc) == FlatPages(doc.pages, 1)
 
 Push(stack, b) == SelectSeq(stack, LAMBDA h : Level(h.kind) < Level(b.kind)) \o <<b>>
@@ -37,10 +40,11 @@ SortNat(S) == IF S = {} THEN <<>> ELSE LET m == CHOOSE x \in S : \A y \in S : x 
 \* chunk: [markers (seq of strings), occurrences (seq of nat), pages (seq), path (seq of heading markers), id]
 Holds(c, b) == MarkersOf(b) \subseteq SetOf(c.markers)
 Touches(c, b) == MarkersOf(b) \cap SetOf(c.markers) # {}
+AllMarkers(bs) == UNION {MarkersOf(bs[i]) : i \in 1..Len(bs)}
 Problems(bs, chunks) ==
-  {[problem |-> "block lost: in no chunk", block |-> bs[i]] : i \in {j \in 1..Len(bs) : \A x \in 1..Len(chunks) : ~Touches(chunks[x], bs[j])}}
-  \cup {[problem |-> "block in more than one chunk", block |-> bs[i]] : i \in {j \in 1..Len(bs) : Cardinality({x \in 1..Len(chunks) : Touches(chunks[x], bs[j])}) > 1}}
-  \cup {[problem |-> "a table's cells are spread over chunks", block |-> bs[i]] : i \in {j \in 1..Len(bs) : \E x \in 1..Len(chunks) : Touches(chunks[x], bs[j]) /\ ~Holds(chunks[x], bs[j])}}
+  {[problem |-> "content lost: marker in no chunk", marker |-> m] : m \in {k \in AllMarkers(bs) : \A x \in 1..Len(chunks) : k \notin SetOf(chunks[x].markers)}}
+  \cup {[problem |-> "content in more than one chunk", marker |-> m] : m \in {k \in AllMarkers(bs) : Cardinality({x \in 1..Len(chunks) : k \in SetOf(chunks[x].markers)}) > 1}}
+  \cup {[problem |-> "a table's cells are spread over chunks", block |-> bs[i]] : i \in {j \in 1..Len(bs) : bs[j].kind = "tb" /\ \E x \in 1..Len(chunks) : Touches(chunks[x], bs[j]) /\ ~Holds(chunks[x], bs[j])}}
   \cup {[problem |-> "text repeated inside a chunk", chunk |-> x] : x \in {y \in 1..Len(chunks) : \E k \in 1..Len(chunks[y].occurrences) : chunks[y].occurrences[k] # 1}}
   \cup {[problem |-> "page numbers are not the pages of the content", chunk |-> x, pages |-> chunks[x].pages] :
           x \in {y \in 1..Len(chunks) : chunks[y].markers # <<>> /\ chunks[y].pages # SortNat({bs[i].page : i \in {j \in 1..Len(bs) : Touches(chunks[y], bs[j])}})}}
